@@ -16,6 +16,7 @@ EXPLANATION = (
     '(R8 also: queues are charged and un-charged with Message::length, shared with C07.R3.) '
     "(R8 also, shared with C07.R2: the queue admission compares with Message::length.) "
     '(R9) Message::from_raw_parts stores the header and body it was given unchanged; R10) in #[derive(MessageBody)] every turn of a field loop feeds every token stream the loop feeds (no field is left out of byte_len). '
+    '(R11) can_cast::<T>() is false for a message without a body, and the body of an existing message is replaced by the setters alone (no other writer of Message.content). '
     "Decides these necessary conditions only; not value equality / drop counts over operation sequences.")
 ASSUMPTIONS = ["TypeId::of::<T>() identifies T", "Box::into_raw/from_raw round-trip"]
 
@@ -704,6 +705,21 @@ def r11_body_presence(ctx):
             elif t == ('int', 0):
                 good = True
             ok = ok and good
+        if not ok:
+            # match / if-let forms: decided per path — `true` is returned only on a path that saw `content is Some`
+            ok = True
+            n_p = 0
+            for path, outcome, decs in fn_paths(ctx, f):
+                if outcome != 'return':
+                    continue
+                n_p += 1
+                r = path_ret_resolved(f, path)
+                r = peel(r) if r is not None else ('unknown',)
+                has_body = any(a[0] == 'is' and a[2] == 'Some' and any(x[0] == 'field' and x[2] == 'content' for x in walk(a[1])) for _, a in path_atoms(f, path, decs))
+                if r == ('int', 0) or has_body:
+                    continue
+                ok = False
+            ok = ok and n_p >= 1
         ctx.check(ok and bool(forms), 'can-cast-needs-a-body', 'Message::can_cast::<T>() is false for a message without a body', f.where(), forms[:3])
     n = 0
     for g in P.fn_list:
@@ -718,7 +734,7 @@ def r11_body_presence(ctx):
         n += 1
         ctx.check((g.root or g.key) in CONTENT_WRITERS, 'content-writer:%s' % (g.root or g.key), 'the body of an existing message is replaced by the setters alone', sites[0],
                   CONTENT_WRITERS.get(g.root or g.key))
-    ctx.floor('functions replacing the body of an existing message', n, 3)
+    ctx.floor('functions replacing the body of an existing message', n, 1)
 
 
 def run(ctx):
